@@ -202,6 +202,21 @@ fn indentation(rng: &mut Rng) -> String {
     " ".repeat(n)
 }
 
+/// A block-comment directive that closes a line now and then spans several lines: the lexer cuts a block comment at its line
+/// breaks, so the directive sits in a piece that has only the opening marker, only the closing one, or neither.
+fn spread_block(rng: &mut Rng, d: String) -> String {
+    if !(d.starts_with("/*") && d.ends_with("*/") && d.len() >= 4) || !rng.chance(1, 3) {
+        return d;
+    }
+    let inner = d[2..d.len() - 2].trim().to_string();
+    match rng.below(4) {
+        0 => format!("/* {}\n   an explanation */", inner),
+        1 => format!("/* an explanation\n   {} */", inner),
+        2 => format!("/*\n{}\n*/", inner),
+        _ => format!("/* {}\n   more\n   text */", inner),
+    }
+}
+
 fn gen_file(rng: &mut Rng, odd: bool, shape: &Shape) -> String {
     let mut s = String::new();
     if shape.pad_max > 0 {
@@ -248,12 +263,12 @@ fn gen_file(rng: &mut Rng, odd: bool, shape: &Shape) -> String {
                         s.push_str(&d2);
                     }
                 } else {
-                    s.push_str(&d);
+                    s.push_str(&spread_block(rng, d));
                 }
             }
         } else if kind < 9 {
             let d = if odd && rng.chance(1, 2) { odd_directive(rng) } else { readme_directive(rng) };
-            s.push_str(&d);
+            s.push_str(&spread_block(rng, d));
         }
         s.push('\n');
     }
